@@ -211,5 +211,5 @@ class RecordManager:
         try:
             self.listeners.remove(listener)
             self.zc.async_notify_all()
-        except ValueError as e:
+        except KeyError as e:
             log.exception('Failed to remove listener: %r', e)
